@@ -128,7 +128,14 @@ def main():
     for r in vlib.pmap(run_b, bjobs):
         chk.evaluations += 2
         if 'skip' in r:
-            chk.inconclusive.append('loop %s: %s' % (r['kind'], r['skip']))
+            what = r['skip']
+            if what.startswith(('panic', 'signal', 'nostats')) or 'VERIF-' in what:
+                # the loops are hand-written valid programs that keep their data reachable; dying under a collection
+                # schedule means the collector released (or corrupted) something the program could still reach
+                chk.violation('loop "%s" died under the collection schedule: %s' % (r['kind'], what.strip()),
+                              {'main.lay': loops[r['kind']] % {'n': n}}, {'loop': r['kind'], 'cfg': r.get('cfg')})
+            else:
+                chk.inconclusive.append('loop %s: %s' % (r['kind'], what))
             continue
         a, b = r['rows']
         chk.count('steady_state_loops')
